@@ -427,6 +427,22 @@ def r5(run, ctx):
                                                        labels_excluded=('exc', 'raise'))
         run.check('R5', okk, 'every option of the request is validated (before any is applied)',
                   sv, von[0].ast, 'some options of a set request escape validation')
+    # what is checked is what will be applied: the validator does not replace the value it was
+    # given by a converted one (the request keeps the raw value; a conversion that succeeds in
+    # the validator says nothing about the raw value set_opt receives)
+    params = [a.arg for a in vo.node.args.args]
+    if len(params) >= 2:
+        vname = params[1]
+        rebinds = [n for n in ctx.live_nodes(vo) if n.kind == 'stmt' and
+                   isinstance(n.ast, (ast.Assign, ast.AugAssign, ast.AnnAssign)) and
+                   any(isinstance(t, ast.Name) and t.id == vname for t in astq.attr_targets(n.ast))]
+        run.check('R5', not rebinds, 'validate_option checks the value it was given', vo,
+                  rebinds[0].ast if rebinds else vo.node,
+                  'validate_option replaces `%s` by a converted value before checking it: the '
+                  'checks approve the converted value while the request still carries the raw '
+                  'one, which is what set_opt is given - an ill-typed value passes validation '
+                  'and fails while being applied, after earlier options were set' % vname,
+                  construct='VALIDATED-VALUE-REBOUND')
     av = ctx.fn('circus.commands.addwatcher:AddWatcher.validate')
     run.need('R5', ctx.nodes_calling(av, [vo.key]), 'validate_option call in AddWatcher.validate', av,
              'add no longer validates its options')
